@@ -453,6 +453,9 @@ fn op_schema(req: &Value) -> OpResult {
     let isolate = ops::opt_field(req, "isolate")
         .and_then(|v| v.as_bool())
         .unwrap_or(false);
+    let finalize = ops::opt_field(req, "finalize")
+        .and_then(|v| v.as_bool())
+        .unwrap_or(false);
     let world = match front_end(req, tracing)? {
         Ok(w) => w,
         Err(e) => return Ok(json!({"Err": e})),
@@ -466,6 +469,8 @@ fn op_schema(req: &Value) -> OpResult {
     let mut shared = Definitions::new();
 
     // One call, either on the shared definitions or on fresh ones (then published in the entry).
+    // Every reference handed out, as the parameters `prune_orphan_pairs` starts from ("finalize").
+    let mut roots: Vec<Parameter> = vec![];
     let mut call = |entry: &mut Value, tipo: &Type| {
         if isolate {
             let mut own = Definitions::new();
@@ -473,6 +478,9 @@ fn op_schema(req: &Value) -> OpResult {
             entry["definitions"] = ser(&own);
         } else {
             from_type_into(entry, &world, tipo, &mut shared);
+            if let Ok(reference) = serde_json::from_value::<Reference>(entry["schema"].clone()) {
+                roots.push(Parameter::from(reference));
+            }
         }
     };
 
@@ -541,6 +549,18 @@ fn op_schema(req: &Value) -> OpResult {
     });
     if !isolate {
         ok["definitions"] = ser(&shared);
+        if finalize {
+            // What `Validator::create_validator_blueprint` does to its definitions once all
+            // parameters/datum/redeemer went through `from_type`.
+            match guarded(|| {
+                shared
+                    .prune_orphan_pairs(roots.iter().collect())
+                    .replace_pairs_with_data_lists();
+            }) {
+                Ok(()) => ok["definitions_final"] = ser(&shared),
+                Err(panic) => ok["finalize_panic"] = json!(panic),
+            }
+        }
     }
     Ok(json!({"Ok": ok}))
 }
